@@ -1325,6 +1325,14 @@ func (fx *FnCtx) lookupName(env *Env, name string) (Val, bool, error) {
 	}
 	for _, ls := range fx.fc.Lets {
 		if ls.Name == name {
+			if ls.Type != "" {
+				// a typed ghost that is not defined on this path (a return before its loop was left) denotes an
+				// arbitrary value there: what mentions it has to hold whatever it is
+				if gt, err := fx.P.resolveType(fx.fn.Pkg.Pkg, ls.Type); err == nil {
+					c := fx.freshConst("ghost_undef_"+sanitize(name), fx.P.sorts.sortOf(gt))
+					return Val{T: c, GoT: gt}, true, nil
+				}
+			}
 			return Val{}, false, fmt.Errorf("ghost %s used before loop %d was left", name, ls.Loop)
 		}
 	}
